@@ -281,7 +281,13 @@ func (eng *Engine) initExterns() {
 	fresh := func(note string) externFn {
 		return func(x *Exec, st *State, cc *ssa.CallCommon, fn *ssa.Function, args []Val, resT types.Type, k func(*State, Val)) {
 			tb(x, note)
-			k(st, x.freshResult(st, "r."+fn.Name(), resT))
+			name := "extern"
+			if fn != nil {
+				name = fn.Name()
+			} else if cc != nil && cc.IsInvoke() {
+				name = cc.Method.Name()
+			}
+			k(st, x.freshResult(st, "r."+name, resT))
 		}
 	}
 	for _, n := range []string{"time.Now", "time.Since", "time.Unix", "time.(Time).Add", "time.(Time).After", "time.(Time).Before", "time.(Duration).Milliseconds", "time.(Time).Sub", "time.(Time).Unix", "time.(Time).UnixNano", "time.(Duration).Seconds", "time.(Duration).String"} {
@@ -351,6 +357,7 @@ func (eng *Engine) initExterns() {
 		tb(x, ctxNote)
 		d := UF(SI, "ctx.done", args[0].(Term))
 		st.assume(And(Gt(d, TInt(0)), Le(d, st.wmNow())))
+		st.assume(Eq(st.chSel("CH!sent", d), st.chSel("CH!rcvd", d)))
 		k(st, d)
 	}
 	E["context.Context.Err"] = func(x *Exec, st *State, cc *ssa.CallCommon, fn *ssa.Function, args []Val, resT types.Type, k func(*State, Val)) {
